@@ -495,9 +495,10 @@ func genC11(c *Ctx) {
 			c.oracleFail("C11/bystander", "the other connection lost fids or was reported closed", line)
 		}
 		c.count("inflight:" + fmt.Sprint(inflight))
-		s.emitLog(c)
+		s.emitLogEnded(c)
 		by.end()
 		s.end()
 		c.emit(line, "*", true)
 	}
+	genC11fid(c)
 }
